@@ -70,6 +70,20 @@ func randRune(r *hx.Rand) rune {
 
 // randString returns a string; valid UTF-8 unless bad is set.
 func randString(r *hx.Rand, bad bool) string {
+	if !bad && r.Intn(4) == 0 {
+		// "pure" strings: plain printable ASCII plus at most one kind of special
+		// character (fast paths in printers key on exactly such strings)
+		special := hx.Pick(r, []string{"", "", "\\", "\"", "'", "\n", "\t", "\x7f", "\x00", "é", "\u2028", "\U0001F600", "%", "{", "\\\""})
+		var sb strings.Builder
+		for i, n := 0, r.Intn(10); i < n; i++ {
+			if special != "" && r.Intn(3) == 0 {
+				sb.WriteString(special)
+			} else {
+				sb.WriteByte(byte(' ' + r.Intn(95)))
+			}
+		}
+		return sb.String()
+	}
 	n := r.Intn(9)
 	if r.Intn(8) == 0 {
 		n = r.Intn(40)
@@ -528,6 +542,83 @@ func (g *gen) value(depth int, hashable bool) starlark.Value {
 	}
 }
 
+// stringClasses: one short string for every subset of the character classes that
+// quoting distinguishes, over a plain printable-ASCII base (so that strings made
+// ONLY of plain ASCII plus exactly the chosen classes occur).
+func stringClasses(bytesMode bool) []string {
+	parts := []string{"\\", "\"", "'", "\n", "\x7f", "é", " ", "\U0001F600"}
+	if bytesMode {
+		parts = append(parts, "\xff")
+	}
+	var out []string
+	for mask := 0; mask < 1<<len(parts); mask++ {
+		s := "a b"
+		for i, p := range parts {
+			if mask&(1<<i) != 0 {
+				s += p + "z"
+			}
+		}
+		out = append(out, s)
+	}
+	// the same classes alone, doubled, at the start and at the end
+	for _, p := range parts {
+		out = append(out, p, p+p, p+"x", "x"+p, "C:"+p+"dir"+p)
+	}
+	return append(out, "", " ", "~", "a\\nb", "\\\\", "\\x41", "%s{}$")
+}
+
+func systematicLeaves() []starlark.Value {
+	leaves := []starlark.Value{starlark.None, starlark.True, starlark.False}
+	// ints around every power of two up to 2^260 and every power of ten up to 10^80
+	one := big.NewInt(1)
+	for k := 0; k <= 260; k++ {
+		p := new(big.Int).Lsh(one, uint(k))
+		for d := int64(-5); d <= 5; d++ {
+			z := new(big.Int).Add(p, big.NewInt(d))
+			leaves = append(leaves, starlark.MakeBigInt(z), starlark.MakeBigInt(new(big.Int).Neg(z)))
+		}
+	}
+	ten := big.NewInt(10)
+	p := big.NewInt(1)
+	for k := 0; k <= 80; k++ {
+		for d := int64(-2); d <= 2; d++ {
+			z := new(big.Int).Add(p, big.NewInt(d))
+			leaves = append(leaves, starlark.MakeBigInt(z), starlark.MakeBigInt(new(big.Int).Neg(z)))
+		}
+		p = new(big.Int).Mul(p, ten)
+	}
+	for _, f := range floatPool {
+		leaves = append(leaves, starlark.Float(f), starlark.Float(-f))
+	}
+	for _, s := range stringClasses(false) {
+		leaves = append(leaves, starlark.String(s))
+	}
+	for _, s := range stringClasses(true) {
+		leaves = append(leaves, starlark.Bytes(s))
+	}
+	return leaves
+}
+
+// positions places a leaf alone and at every kind of position inside containers.
+func positions(x starlark.Value) []starlark.Value {
+	one := starlark.MakeInt(1)
+	dk := starlark.NewDict(1)
+	dk.SetKey(x, one)
+	dv := starlark.NewDict(1)
+	dv.SetKey(one, x)
+	dd := starlark.NewDict(1)
+	dd.SetKey(starlark.Tuple{x, x}, starlark.NewList([]starlark.Value{x}))
+	return []starlark.Value{
+		x,
+		starlark.NewList([]starlark.Value{x}),
+		starlark.NewList([]starlark.Value{one, x, x}),
+		starlark.Tuple{x},
+		starlark.Tuple{x, one},
+		dk, dv, dd,
+		starlark.NewList([]starlark.Value{starlark.Tuple{starlark.NewList([]starlark.Value{x})}}),
+	}
+}
+
 // deepSame: same type and same content, exactly (floats by bit pattern, dict order included)
 func deepSame(x, y starlark.Value) bool {
 	if x.Type() != y.Type() {
@@ -735,7 +826,20 @@ func cmdValues(args []string) {
 			hx.Emit(M{"kind": "value", "v": describe(v), "repr": hx_(text), "str": hx_(st)})
 		}
 	}
-	// pools first
+	// systematic part: every leaf kind x every position.  The printer has separate
+	// code for a leaf printed on its own (T.String()) and inside a container
+	// (writeValue's duplicated cases), and the scanner has separate paths by literal
+	// size, so each boundary leaf is placed alone, as list / tuple element, as dict
+	// key and dict value, and one level deeper.
+	nsys := 0
+	for li, leaf := range systematicLeaves() {
+		for pi, v := range positions(leaf) {
+			// a deterministic slice of them also goes through the Coq printer model / reader
+			check(v, li%89 == 0 && (pi == 1 || pi == 5))
+			nsys++
+		}
+	}
+	dist["systematic-leaf-x-position"] = nsys
 	for _, f := range floatPool {
 		check(starlark.Float(f), true)
 		check(starlark.Float(-f), false)
